@@ -18,7 +18,8 @@
   plaintext-flagged cells;
   on_created neither checks the sender nor the CREATED's circuit id, only the identifier; every relayed cell bumps
   relay_early_count; a relay re-encrypts backward cells blindly; on_data's "origin" test is always true;
-  exit_data checks the source only while the socket is not yet enabled; on_ping answers to the datagram's source.
+  exit_data checks the source only while the socket is not yet enabled; packets wait in the exit socket's own
+  queue while its transports are being opened (explicit phases); on_ping answers to the datagram's source.
 
   Cryptography is an abstract interface `Aead` (enc/dec by key id and direction, serialisation `plain`/`parse`);
   nothing here assumes any law.  The laws used by theorems are the structure `AeadLaws` (Lemmas.lean), with the
@@ -89,10 +90,22 @@ structure Relay where
   reCount : Nat
   deriving DecidableEq, Repr
 
+/-- TunnelExitSocket.  `phase`: 0 = not enabled; 1 = `enable()` called, `create_transports` is opening the IPv4
+    transport; 2 = IPv4 transport open, IPv6 being opened; 3 = both open and the queue flushed.
+    `queue` = the socket's own `deque(maxlen=10)` of packets parked while no transport exists, oldest first; each
+    item is (id of the cell it arrived on — ghost, destination, tag).  Destinations are IPv4 (what the harness sends),
+    so a packet is parked exactly in phase 1. -/
 structure ExitE where
   hop : Hop
-  enabled : Bool
+  phase : Nat
+  queue : List (Nat × Nat × Nat)
   deriving DecidableEq, Repr
+
+def ExitE.enabled (e : ExitE) : Bool := e.phase != 0
+
+/-- `deque(maxlen=10).append`: the oldest item falls out -/
+def pushQ (q : List (Nat × Nat × Nat)) (x : Nat × Nat × Nat) : List (Nat × Nat × Nat) :=
+  if 10 ≤ q.length then q.drop 1 ++ [x] else q ++ [x]
 
 /-- CreateRequestCache -/
 structure CreateReq where
@@ -229,7 +242,7 @@ def onCreate (n : Node) (src cid ident pk dh : Nat) : Node × List (Out B) :=
   else
     let k := n.freshKey
     let n1 : Node := { n with created := n.created ++ [cid],
-                              exits := set n.exits cid ⟨⟨pk, src, k⟩, false⟩,
+                              exits := set n.exits cid ⟨⟨pk, src, k⟩, 0, []⟩,
                               nextKey := n.nextKey + 1 }
     sendMsg A n1 src cid (.created ident k n.self dh)
 
@@ -309,14 +322,31 @@ def onExtended (n : Node) (cid ident key authPk dhRef : Nat) (ch : Choice) : Nod
   | some circ =>
     if circ.retry ≠ 0 ∧ circ.retry = ident then oursCreated A n cid circ key authPk dhRef ch else (n, [])
 
-/-- exit_data -/
+/-- exit_data + TunnelExitSocket.enable / sendto: while the socket is not enabled the cell must come from the hop's
+    address (then `enable()` starts `create_transports`); without an IPv4 transport the packet is parked in THIS
+    socket's queue, otherwise it leaves through THIS socket -/
 def exitData (n : Node) (src cid dest tag : Nat) : Node × List (Out B) :=
   match get n.exits cid with
   | none => (n, [])
   | some e =>
-    if e.enabled then (n, [Out.exitOut cid dest tag])
-    else if src = e.hop.addr then
-      ({ n with exits := set n.exits cid { e with enabled := true } }, [Out.exitOut cid dest tag])
+    if e.phase = 0 then
+      if src = e.hop.addr then
+        ({ n with exits := set n.exits cid { e with phase := 1, queue := pushQ e.queue (cid, dest, tag) } }, [])
+      else (n, [])
+    else if e.phase = 1 then
+      ({ n with exits := set n.exits cid { e with queue := pushQ e.queue (cid, dest, tag) } }, [])
+    else (n, [Out.exitOut cid dest tag])
+
+/-- one `await` of `create_transports` of exit socket `cid` completes: IPv4 transport open (1 → 2), then IPv6 transport
+    open and `while self.queue: self.sendto(*self.queue.popleft())` (2 → 3): the parked packets leave through this socket -/
+def openStep (n : Node) (cid : Nat) : Node × List (Out B) :=
+  match get n.exits cid with
+  | none => (n, [])
+  | some e =>
+    if e.phase = 1 then ({ n with exits := set n.exits cid { e with phase := 2 } }, [])
+    else if e.phase = 2 then
+      ({ n with exits := set n.exits cid { e with phase := 3, queue := [] } },
+       e.queue.map (fun q => Out.exitOut cid q.2.1 q.2.2))
     else (n, [])
 
 /-- on_data -/
@@ -483,6 +513,7 @@ inductive Ev (B : Type) where
   | rmCircuit (cid : Nat)
   | rmExit (cid : Nat)
   | rmRelay (cid : Nat)
+  | openStep (cid : Nat)
   | tick
 
 def step {B : Type} (A : Aead B) (n : Node) : Ev B → Node × List (Out B)
@@ -495,6 +526,7 @@ def step {B : Type} (A : Aead B) (n : Node) : Ev B → Node × List (Out B)
   | .rmCircuit cid => apiRemoveCircuit n cid
   | .rmExit cid => apiRemoveExit n cid
   | .rmRelay cid => apiRemoveRelay n cid
+  | .openStep cid => openStep n cid
   | .tick => (tick n, [])
 
 def run {B : Type} (A : Aead B) (n : Node) : List (Ev B) → Node
